@@ -307,3 +307,81 @@ Proof.
   - unfold getd. rewrite !lookup_upd_same. cbn [odict]. unfold sub_upd. rewrite !lookup_upd_same. reflexivity.
   - intros i' Hn. unfold getd. rewrite !lookup_upd_other by exact Hn. reflexivity.
 Qed.
+
+(* ------------------------------------------------------------------ repeated tags anywhere in the file *)
+(* the text fragments of GF tag k, resp. of GS tag k of sequence i, in file order *)
+Fixpoint gf_frags (k : str) (its : list item) : list str :=
+  match its with
+  | [] => []
+  | IGF k' v :: r => if str_eqb k' k then v :: gf_frags k r else gf_frags k r
+  | _ :: r => gf_frags k r
+  end.
+Fixpoint gs_frags (i k : str) (its : list item) : list str :=
+  match its with
+  | [] => []
+  | IGS i' k' v :: r => if str_eqb i' i && str_eqb k' k then v :: gs_frags i k r else gs_frags i k r
+  | _ :: r => gs_frags i k r
+  end.
+Definition join_all (o : option str) (vs : list str) : option str := fold_left (fun o v => Some (join_sp v o)) vs o.
+Definition spaced (v : str) (vs : list str) : str := v ++ concat (map (cons SP) vs).
+
+Lemma join_all_some x vs : join_all (Some x) vs = Some (spaced x vs).
+Proof.
+  revert x. induction vs as [|v vs IH]; intros x; simpl; [unfold spaced; simpl; rewrite app_nil_r; reflexivity|].
+  unfold join_all in *. simpl. rewrite IH. unfold spaced. simpl. rewrite <- app_assoc. reflexivity.
+Qed.
+
+Theorem gf_all_frags k its : forall s,
+  lookup k (s_gf (fold_left step its s)) = join_all (lookup k (s_gf s)) (gf_frags k its).
+Proof.
+  induction its as [|it its IH]; intros s; [reflexivity|]. cbn [fold_left]. rewrite IH. clear IH.
+  destruct it; destruct s as [gf gc gs gr sq]; cbn [step s_gf gf_frags]; try reflexivity.
+  destruct (str_eqb k0 k) eqn:E.
+  - apply str_eqb_eq in E. subst k0. rewrite lookup_upd_same. reflexivity.
+  - rewrite lookup_upd_other; [reflexivity|]. intros Heq. subst k0. rewrite str_eqb_refl in E. discriminate.
+Qed.
+Theorem gs_all_frags i k its : forall s,
+  lookup k (getd i (s_gs (fold_left step its s))) = join_all (lookup k (getd i (s_gs s))) (gs_frags i k its).
+Proof.
+  induction its as [|it its IH]; intros s; [reflexivity|]. cbn [fold_left]. rewrite IH. clear IH.
+  destruct it; destruct s as [gf gc gs gr sq]; cbn [step s_gs gs_frags]; try reflexivity.
+  destruct (str_eqb s0 i) eqn:E1.
+  - apply str_eqb_eq in E1. subst s0. unfold getd at 1. rewrite lookup_upd_same. cbn [odict]. unfold sub_upd.
+    fold (odict (lookup i gs)). fold (getd i gs). destruct (str_eqb k0 k) eqn:E2; cbn [andb].
+    + apply str_eqb_eq in E2. subst k0. rewrite lookup_upd_same. reflexivity.
+    + rewrite lookup_upd_other; [reflexivity|]. intros Heq. subst k0. rewrite str_eqb_refl in E2. discriminate.
+  - cbn [andb]. unfold getd at 1. rewrite lookup_upd_other; [reflexivity|].
+    intros Heq. subst s0. rewrite str_eqb_refl in E1. discriminate.
+Qed.
+(* a tag that occurs (first fragment v, later fragments vs, any other lines in between) reads as the fragments joined by
+   single spaces in file order *)
+Theorem stk_gf_join_anywhere k its v vs : gf_frags k its = v :: vs ->
+  lookup k (s_gf (fold_left step its st0)) = Some (spaced v vs).
+Proof. intros H. rewrite gf_all_frags, H. cbn [st0 s_gf lookup]. unfold join_all. cbn [fold_left join_sp]. apply join_all_some. Qed.
+Theorem stk_gs_join_anywhere i k its v vs : gs_frags i k its = v :: vs ->
+  lookup k (getd i (s_gs (fold_left step its st0))) = Some (spaced v vs).
+Proof.
+  intros H. rewrite gs_all_frags, H. cbn [st0 s_gs]. unfold getd at 1. cbn [lookup odict]. unfold join_all.
+  cbn [fold_left join_sp]. apply join_all_some.
+Qed.
+(* the same on the text of a file: lines before the terminator, whatever they are (markup, sequence blocks, comments) *)
+Theorem read_text_gf_join t ls e rest k v vs :
+  py_lines t = ls ++ e :: rest -> forallb good (map parse_line ls) = true -> parse_line e = IEnd ->
+  gf_frags k (map parse_line ls) = v :: vs ->
+  exists a, fst (read_text t) = Some a /\ lookup k (a_gf a) = Some (spaced v vs).
+Proof.
+  intros Hpy Hgood He Hfr. unfold read_text. rewrite Hpy.
+  pose proof (run_items_app parse_line ls e rest st0 Hgood He) as R. unfold str in *. rewrite R.
+  cbn [fst option_map]. eexists. split; [reflexivity|]. unfold finish. cbn [a_gf]. apply stk_gf_join_anywhere. exact Hfr.
+Qed.
+Theorem read_text_gs_join t ls e rest i k v vs r :
+  py_lines t = ls ++ e :: rest -> forallb good (map parse_line ls) = true -> parse_line e = IEnd ->
+  gs_frags i k (map parse_line ls) = v :: vs ->
+  exists a, fst (read_text t) = Some a /\ (In r (a_rows a) -> r_id r = i -> lookup k (r_gs r) = Some (spaced v vs)).
+Proof.
+  intros Hpy Hgood He Hfr. unfold read_text. rewrite Hpy.
+  pose proof (run_items_app parse_line ls e rest st0 Hgood He) as R. unfold str in *. rewrite R.
+  cbn [fst option_map]. eexists. split; [reflexivity|]. unfold finish. cbn [a_rows]. intros Hin Hid.
+  apply in_map_iff in Hin. destruct Hin as (kv & <- & _). cbn [r_id r_gs] in *. subst i.
+  apply (stk_gs_join_anywhere (fst kv) k _ v vs Hfr).
+Qed.
